@@ -307,10 +307,13 @@ func timeKeysProbe(o *Oracle, prop, kind string, salt int) {
 
 // ---- pointer elements with a comparator that dereferences ---------------------------------------------------
 
-// A comparator is a strict weak order over the elements the caller stores; it need not accept anything
-// else. With pointer elements ordered by a field of the pointee, a library that hands the comparator a
-// value that was never stored (the zero value of T: nil) makes a documented call panic. The probe runs a
-// derived script on the comparator-using kinds over *Item and reports such a call.
+// Pointer elements ordered by a field of the pointee: the probe runs a derived script on the comparator-using
+// kinds over *Item. Any panic raised inside the library is a violation as everywhere else. A call of the
+// comparator with nil - the zero value of T, never stored - is only *counted* (unjudged): the statements
+// quantify over comparators that are strict weak orders on T, and nil is a value of T, so a library that
+// asks the comparator about it (e.g. by evaluating the comparison before a bounds test) breaks no listed
+// property, although a comparator that dereferences its arguments then panics. Two seeded changes
+// (C06-w5C, C13-w5C) are of this kind and are recorded as outside the properties.
 type foreignArg struct{}
 
 func derefCmp(a, b *Item) int {
@@ -327,8 +330,9 @@ func pointerElementsProbe(o *Oracle, prop, kind string, salt int) {
 	}
 	pick := func(i int) *Item { return pool[derive(salt, i, len(pool))] }
 	step := 0
+	foreignSeen := false
 	call := func(what string, f func()) bool {
-		if o.Failed() {
+		if o.Failed() || foreignSeen { // (after a nil reached the comparator the container may be half-updated: stop)
 			return false
 		}
 		ok := true
@@ -349,7 +353,8 @@ func pointerElementsProbe(o *Oracle, prop, kind string, salt int) {
 						return
 					}
 					ok = false
-					o.Fail(prop, "comparator-called-with-non-element", "%s over pointer elements: %s (step %d) called the comparator with nil, which was never stored: a comparator that reads its arguments panics", kind, what, step)
+					foreignSeen = true
+					o.Unjudged("comparator called with the zero value of a pointer element type (" + kind + ": " + what + ")")
 				}
 			}()
 			f()
@@ -358,6 +363,7 @@ func pointerElementsProbe(o *Oracle, prop, kind string, salt int) {
 		return ok
 	}
 	n := 6 + derive(salt, 1, 10)
+	_ = foreignSeen
 	switch kind {
 	case "treeset":
 		a, b := treeset.NewWith[*Item](derefCmp), treeset.NewWith[*Item](derefCmp)
